@@ -184,6 +184,15 @@ pub fn check(id: &str, tier: Tier, seed: u64) -> i32 {
     };
     let known = load_known();
     let root = verif_root();
+    // replay files of earlier runs of this property are stale: remove them
+    if let Ok(rd) = std::fs::read_dir(format!("{}/replays", root)) {
+        for e in rd.filter_map(|e| e.ok()) {
+            let name = e.file_name().to_string_lossy().to_string();
+            if e.path().is_file() && name.starts_with(&format!("{}-", id)) && name.ends_with(".json") {
+                let _ = std::fs::remove_file(e.path());
+            }
+        }
+    }
     let mut violations: Vec<Value> = vec![];
     let mut known_hits: BTreeMap<String, (String, u64)> = BTreeMap::new();
     let mut inconclusive: Vec<String> = vec![];
@@ -397,6 +406,14 @@ pub fn check(id: &str, tier: Tier, seed: u64) -> i32 {
                     .get(&w.shard)
                     .map(|t| t.join(" | "))
                     .unwrap_or_default();
+                if w.last_journal.is_none() {
+                    // byte-sequence runners keep the current case in a file instead of journaling it
+                    let cur = format!("{}/replays/.cur-{}-{}.tmp", root, id, w.shard);
+                    if let Ok(t) = std::fs::read_to_string(&cur) {
+                        w.last_journal = Some((fnv(t.as_bytes()), t));
+                    }
+                    let _ = std::fs::remove_file(&cur);
+                }
                 match w.last_journal.take() {
                     Some((h, case)) => {
                         // confirm alone, with 3x the limit
